@@ -130,8 +130,20 @@ func TestC04Random(t *testing.T) {
 				}
 				c.faults[id] = fp
 			}
+			// start offsets smaller than a round: anywhere in 0..900 ms, or (two cases in three) bunched at
+			// the two ends, so that members which start almost a round apart are common
+			bunched := rapid.IntRange(0, 2).Draw(rt, "startsBunched") > 0
 			for i := 0; i < n; i++ {
-				c.starts = append(c.starts, time.Duration(rapid.IntRange(0, 900).Draw(rt, "startMs"))*time.Millisecond)
+				ms := rapid.IntRange(0, 900).Draw(rt, "startMs")
+				if bunched {
+					switch rapid.IntRange(0, 2).Draw(rt, "startEnd") {
+					case 0:
+						ms = ms % 60
+					case 1:
+						ms = 840 + ms%61
+					}
+				}
+				c.starts = append(c.starts, time.Duration(ms)*time.Millisecond)
 			}
 			c.latSeed = rapid.Uint64().Draw(rt, "latSeed")
 			// strictly below a third of the shortest round timeout of the timer in use:
